@@ -2,6 +2,7 @@ import Juniper.Proofs.IterReduce
 import Juniper.Proofs.StreamReduce
 import Juniper.Proofs.IterRuns
 import Juniper.Proofs.StreamRuns
+import Juniper.Proofs.XSlices
 /-!
 # C07 — iterator / stream / xslices combinators compute their documented sequence function;
 lazy; sticky end (property theorems)
@@ -370,5 +371,104 @@ theorem iter_stream_agree_compact (eq : α → α → Bool) (l : List α) :
   ⟨_, compact_den eq (slice_denotes l) none, compact_sden eq (iter_stream_agree_source l).2 none⟩
 
 end agree
+
+/-! ### the xslices counterparts agree with the iterator versions -/
+
+section xslices
+open Juniper.Proofs.IterDen Juniper.Proofs.XS
+variable {α β : Type}
+
+/-- an iterator state yields exactly the list `l` (annotations dropped) -/
+def Yields {σ : Type u} (m : Iter.IM σ α) (s : σ) (l : List α) : Prop :=
+  ∃ (cost : σ → Nat) (L : List (α × Nat)) (e : Nat), Den m cost s L e ∧ L.map Prod.fst = l
+
+theorem yields_slice (l : List α) : Yields Iter.src (Iter.Src.of l) l :=
+  ⟨_, _, _, slice_denotes l, annot_fst 0 l⟩
+
+/-- `Chunk` (sizes ≥ 1): `xslices.Chunk` returns the chunks the iterator yields. -/
+theorem xslices_agree_chunk (n : Nat) (hn : 1 ≤ n) (l : List α) :
+    XSlices.chunk l (n : Int) = some (Seq.chunk n l) ∧
+    Yields (Iter.chunk (n : Int) Iter.src) ⟨Iter.Src.of l, []⟩ (Seq.chunk n l) :=
+  ⟨chunk_eq l n hn, _, _, _, chunk_den n (slice_denotes l) [], by rw [chunkGoA_fst, annot_fst]; rfl⟩
+
+/-- `Runs` (reflexive `same`): `xslices.Runs` returns the runs the iterator yields under the documented protocol. -/
+theorem xslices_agree_runs (same : α → α → Bool) (hrefl : ∀ a, same a a = true) (l : List α) :
+    XSlices.runs same l = some (Seq.runs same l) ∧
+    Yields (Iter.runsProto same none Iter.src) ⟨⟨⟨Iter.Src.of l, none⟩, 0, none⟩, none⟩ (Seq.runs same l) :=
+  ⟨runs_eq same l, _, _, _, (runs_den same hrefl none (slice_denotes l)).2.2 0,
+    by rw [runsStartA_all_fst, annot_fst]⟩
+
+/-- `CompactFunc` with an equivalence: `xslices.CompactFunc` (= `slices.CompactFunc`, which compares
+neighbours) returns what the iterator (which compares with the last item kept) yields. -/
+theorem xslices_agree_compact (eq : α → α → Bool) (h : Seq.Equiv eq) (l : List α) :
+    XSlices.compactFunc eq l = Seq.compact eq l ∧
+    Yields (Iter.compact eq Iter.src) ⟨Iter.Src.of l, true, none⟩ (Seq.compact eq l) := by
+  refine ⟨compactFunc_eq eq h l, _, _, _, compact_den eq (slice_denotes l) none, ?_⟩
+  have key : ∀ (P : Option (α × Nat)) (L : List (α × Nat)),
+      (Seq.compactGo (fun p q => eq p.1 q.1) P L).map Prod.fst = Seq.compactGo eq (P.map Prod.fst) (L.map Prod.fst) := by
+    intro P L
+    induction L generalizing P with
+    | nil => cases P <;> rfl
+    | cons x L ih =>
+      cases P with
+      | none => simp [Seq.compactGo, ih]
+      | some p =>
+        simp only [Seq.compactGo, Option.map_some, List.map_cons]
+        split
+        · exact ih _
+        · simp [ih]
+  rw [key, annot_fst]
+  rfl
+
+/-- `Filter`. -/
+theorem xslices_agree_filter (keep : α → Bool) (l : List α) :
+    XSlices.filter keep l = l.filter keep ∧ Yields (Iter.filter keep Iter.src) (Iter.Src.of l) (l.filter keep) := by
+  refine ⟨rfl, _, _, _, filter_den keep (slice_denotes l), ?_⟩
+  have : ∀ L : List (α × Nat), (L.filter fun p => keep p.1).map Prod.fst = (L.map Prod.fst).filter keep := by
+    intro L
+    induction L with
+    | nil => rfl
+    | cons p L ih => simp only [List.filter_cons, List.map_cons]; split <;> simp [ih]
+  rw [this, annot_fst]
+
+/-- `Map`. -/
+theorem xslices_agree_map (f : α → β) (l : List α) :
+    XSlices.map f l = l.map f ∧ Yields (Iter.map f Iter.src) (Iter.Src.of l) (l.map f) := by
+  refine ⟨rfl, _, _, _, map_den f (slice_denotes l), ?_⟩
+  rw [List.map_map]
+  have : (Prod.fst ∘ fun (p : α × Nat) => (f p.1, p.2)) = f ∘ Prod.fst := rfl
+  rw [this, ← List.map_map, annot_fst]
+
+/-- `Join`. -/
+theorem xslices_agree_join (ls : List (List α)) :
+    XSlices.join ls = ls.flatten ∧ Yields (Iter.join Iter.src) (ls.map Iter.Src.of) ls.flatten := by
+  refine ⟨rfl, _, _, _, join_den (fun s => s.rest) (ls.map Iter.Src.of) ?_, ?_⟩
+  · intro s hs
+    simp only [List.mem_map] at hs
+    obtain ⟨l, _, rfl⟩ := hs
+    exact ⟨_, _, _, slice_denotes l, annot_fst 0 l⟩
+  · rw [List.map_map]
+    have : (Prod.fst ∘ fun (a : α) => (a, 0)) = id := rfl
+    rw [this, List.map_id, List.flatMap_def, List.map_map]
+    congr 1
+    induction ls with
+    | nil => rfl
+    | cons l ls ih => simp [Iter.Src.of, ih]
+
+/-- `Reduce`. -/
+theorem xslices_agree_reduce (f : β → α → β) (init : β) (l : List α) :
+    XSlices.reduce f init l = l.foldl f init ∧
+    ∃ F, ∀ fuel, F ≤ fuel → (Iter.reduce Iter.src f fuel init (Iter.Src.of l)).1 = some (l.foldl f init) := by
+  refine ⟨rfl, ?_⟩
+  obtain ⟨F, hF⟩ := reduce_den f (slice_denotes l)
+  exact ⟨F, fun fuel hf => by have := (hF fuel hf init).1; rwa [annot_fst] at this⟩
+
+/-- `Repeat` (`n ≥ 0`). -/
+theorem xslices_agree_repeat (a : α) (n : Nat) :
+    XSlices.repeat_ a (n : Int) = some (List.replicate n a) ∧ Yields (Iter.repeat_ a) (n : Int) (List.replicate n a) := by
+  refine ⟨by simp [XSlices.repeat_], _, _, _, repeat_den a (n : Int), ?_⟩
+  simp
+
+end xslices
 
 end Juniper.Props.C07
